@@ -2168,7 +2168,9 @@ class WBEMConnection:  # pylint: disable=too-many-instance-attributes
             if isinstance(obj, list):
                 if obj and isinstance(obj[0], (CIMClassName, CIMInstanceName)):
                     return _cim_xml.VALUE_REFARRAY([paramvalue(x) for x in obj])
-                return _cim_xml.VALUE_ARRAY([paramvalue(x) for x in obj])
+                return _cim_xml.VALUE_ARRAY(
+                    [_cim_xml.VALUE_NULL() if x is None else paramvalue(x)
+                     for x in obj])
             # The type has been checked in infer_type(), so we can assert
             assert obj is None
 
